@@ -79,6 +79,11 @@ def write(prop, tier, seed, total, digests, violations, samples, sim_time, none_
         "wall_s": round(wall, 2),
         "violations": len(reported),
     }
+    try:
+        with open(os.path.join(VERIF, "evidence", "selftest-determinism.json")) as f:
+            ev["coverage"]["determinism_selftest"] = json.load(f).get("summary", {}).get(prop)
+    except (IOError, ValueError):
+        pass
     if prop == "C07":
         ev["coverage"]["exhaustive"] = False
         ev["coverage"]["fault_enumeration_note"] = (
